@@ -663,7 +663,7 @@ def run_history(config, ops, use_frac, use_seed, stats=None, record=None, net_cl
                 (expect_clk if is_used else optional_loc)[("clk", cport) if not is_used else cport] = node["clock_mhz"] * 1e6
             if is_used:
                 used.append(pname)
-                if collide_pre is not None and collision is None and op["dir"] == "-" and not node["clock_mhz"] and crng.random() < 0.5:
+                if collide_pre is not None and collision is None and op["dir"] == "-" and crng.random() < 0.5:
                     from amaranth.hdl import IOPort, IOBufferInstance
                     base = pname + ("__p" if n is not None else "__io")
                     hand = IOPort(len(p) + 1, name=base)
@@ -806,7 +806,12 @@ def run_history(config, ops, use_frac, use_seed, stats=None, record=None, net_cl
                     return cands[0] + k[len(base):]
                 return k
             expect_loc = {ren(k): v for k, v in expect_loc.items()}
-            expect_clk = {ren(k): v for k, v in expect_clk.items()}
+            if ext in (".pcf+sdc", ".pcf+symbiflow"):
+                # (the SymbiFlow .sdc files name every clock by its ASCII-escaped name: `$` is written `_24_`)
+                expect_clk = {re.sub(r"[^A-Za-z0-9_]", lambda c_: "_%02x_" % ord(c_.group(0)), ren(k)) if ren(k) != k else k: v
+                              for k, v in expect_clk.items()}
+            else:
+                expect_clk = {ren(k): v for k, v in expect_clk.items()}
             if stats is not None:
                 stats["probes"]["platform_port_renamed_by_collision"] = stats["probes"].get("platform_port_renamed_by_collision", 0) + 1
         if stats is not None:
